@@ -30,6 +30,12 @@ theorem io_frameSeqPart (a : Apu) : a.frameSeqPart.io = a.io := by
   · rw [io_wrapFs]; unfold tickFrameSequencer; rw [io_incFs, io_sweepPart, io_envPart, io_lenPart]
   · rfl
 theorem io_clearTriggered (a : Apu) : a.clearTriggered.io = a.io := rfl
+theorem io_endMachineCycle (a : Apu) : a.endMachineCycle.io = a.tickClock.tickClock.tickClock.tickClock.io := by
+  unfold endMachineCycle; exact io_clearTriggered _
+theorem io_fields {a b : Apu} (h : a.io = b.io) :
+    a.hasL = b.hasL ∧ a.hasR = b.hasR ∧ a.control.on = b.control.on ∧ a.ticks = b.ticks ∧ a.out = b.out ∧ a.crash = b.crash :=
+  ⟨congrArg IoView.hasL h, congrArg IoView.hasR h, congrArg IoView.on h, congrArg IoView.ticks h, congrArg IoView.out h,
+   congrArg IoView.crash h⟩
 
 /-- attachment flags, crash flag and emitted samples: not touched by any register write -/
 def att (a : Apu) : Bool × Bool × Bool × List (Nat × Nat) := (a.hasL, a.hasR, a.crash, a.out)
